@@ -65,6 +65,8 @@ def run(ctx):
     if len(cases) < 100:
         raise ToolError("generator produced only %d behaviours" % len(cases))
     execute(ctx, cases, "all")
+    if not ctx.quick:
+        selftest(ctx, [c for c in cases if c["steps"][-1]["res"] != "rejected"][:30], [c for c in cases if c["steps"][-1]["res"] == "rejected"][:10])
     ctx.cov["rule"] = ("single puts: every packet of the universe P36 under every path key (exhaustive); multi-step: TLC -simulate "
                        "behaviours seeded from VERIF_SEED; non-trivial = wrong signer / tampered signature / foreign or out-of-zone "
                        "record / SOA / NS record / noop")
@@ -99,3 +101,28 @@ def execute(ctx, cases, tag):
                        "server deviates from the spec at step %d (%s): expected %s, got %s; steps %s"
                        % (o["step"], o["what"], o["exp"], o["got"],
                           [(s["k"], s["signer"], s["sigOk"], s["ts"], [(r["zl"], r["rel"], r["ty"]) for r in s["recs"]]) for s in steps]), c)
+
+
+def selftest(ctx, accepted, rejected_cases):
+    """Binding self-test: add a record the server does not serve to the expected table / flip the expected status."""
+    import copy
+    flipped = []
+    for c in accepted:
+        c = copy.deepcopy(c)
+        st = c["steps"][-1]
+        st["table"] = [t for t in st["table"] if not (t["k"] == st["k"] and t["rel"] == "_iroh" and t["ty"] == "AAAA")]
+        st["table"].append({"k": st["k"], "rel": "_iroh", "ty": "AAAA", "vs": [7]})
+        flipped.append(c)
+    for c in rejected_cases:
+        c = copy.deepcopy(c)
+        c["steps"][-1]["res"] = "noop"
+        flipped.append(c)
+    inp = ctx.write_ndjson("c36-selftest.in", flipped)
+    outp = ctx.path("c36-selftest.out")
+    ddir = ctx.path("dnsdata-selftest")
+    os.makedirs(ddir, exist_ok=True)
+    ctx.run_bin("vh_dnssrv", ["c36", "--in", inp, "--out", outp, "--dir", ddir])
+    rejected = sum(1 for o in ctx.read_ndjson(outp) if not o["ok"])
+    ctx.cov["binding_selftests"] = {"flipped_expectations": len(flipped), "rejected": rejected}
+    if rejected != len(flipped):
+        raise ToolError("binding self-test: only %d of %d flipped expectations were rejected" % (rejected, len(flipped)))
